@@ -154,6 +154,10 @@ pub struct SubBad {
     pub method_raw: Option<u8>,
     pub order_raw: Option<u8>,
     pub residual_force: Option<(usize, i64)>,
+    /// malformed partitioning: write these partition lengths (one Rice parameter each) instead of the lengths the
+    /// (valid) `res.order` implies; used together with `order_raw` to build frames that are self-consistent under a
+    /// lenient reading of a partition order that does not divide the block size
+    pub part_sizes: Option<Vec<usize>>,
 }
 
 #[derive(Clone, Debug, PartialEq)]
@@ -464,9 +468,15 @@ fn write_residual(
     w.put(field as u64, 2);
     w.put((bad.order_raw.unwrap_or(rs.order) & 15) as u64, 4);
 
+    let counts: Vec<usize> = match &bad.part_sizes {
+        Some(v) => v.clone(),
+        None => (0..(1usize << p)).map(|part| if part == 0 { per - pred_order } else { per }).collect(),
+    };
+    if counts.iter().sum::<usize>() != res.len() {
+        return unb(format!("part_sizes sum to {} but there are {} residuals", counts.iter().sum::<usize>(), res.len()));
+    }
     let mut start = 0usize;
-    for part in 0..(1usize << p) {
-        let count = if part == 0 { per - pred_order } else { per };
+    for (part, &count) in counts.iter().enumerate() {
         let vals = &res[start..start + count];
         let is_forced = |j: usize| forced == Some(start + j);
         let param = match rs.params.get(part) {
